@@ -52,8 +52,9 @@ pub fn run(sc: &Value) -> Value {
         let rel = it.trim_start_matches('/');
         if let Some(d) = rel.strip_suffix('/') {
             std::fs::create_dir_all(root.join(d)).unwrap();
-        } else if let Some(l) = rel.strip_suffix('@') {
-            std::os::unix::fs::symlink("t", root.join(l)).unwrap();
+        } else if let Some((l, target)) = rel.split_once('@') {
+            // "name@" is a dangling link; "name@sibling" points at the sibling directory of that name
+            std::os::unix::fs::symlink(if target.is_empty() { "t" } else { target }, root.join(l)).unwrap();
         } else {
             std::fs::write(root.join(rel), b"x").unwrap();
         }
